@@ -196,6 +196,18 @@ func goCCString(c *credentials.CCache) string {
 		cs = append(cs, x.tok(2, true))
 	}
 	dp := goPrincTok(reflect.ValueOf(c).Elem().FieldByName("DefaultPrincipal"))
+	// the credentials object built from the cache names the default principal as the file does: same name
+	// type, same components (a component may hold a '/'), same realm
+	Protect(func() {
+		cr := c.GetClientCredentials()
+		pn := c.GetClientPrincipalName()
+		if cr != nil {
+			cn := cr.CName()
+			if cn.NameType != pn.NameType || strings.Join(cn.NameString, "\x00") != strings.Join(pn.NameString, "\x00") || cr.Domain() != c.GetClientRealm() {
+				notSigned += fmt.Sprintf(" client-credentials-name-differs:%d:%q@%q", cn.NameType, cn.NameString, cr.Domain())
+			}
+		}
+	})
 	return strings.TrimRight(fmt.Sprintf("v=%d hdr=%s princ=%s creds=%s", ver, typedToks(hdr), dp.tok(2), strings.Join(cs, " ")), " ") + notSigned
 }
 
